@@ -343,10 +343,15 @@ def case_C04(seed):
 def case_C05(seed):
     rnd = _rnd(seed, 'C05')
     case = U.gen_case(rnd)
+    gap = seed % 6 == 4
+    if gap:
+        case = U.gen_gap_case(random.Random(seed))
     U.quiet()
     mp = U.make_map(case['graph'])
     mt = U.make_matcher(mp, case['cfg'], case.get('warmup'))
     ops = gen_history(rnd, case, allow_cwd=True) if rnd.random() < 0.5 else [('match', len(case['trace']))]
+    if gap:
+        ops = [('match', len(case['trace'])), ('cwd',)]
     if any(o[0] == 'cwd' for o in ops):
         ops.append(('extend_same',))
     for op in ops:
@@ -366,7 +371,7 @@ def case_C05(seed):
     for j, m in enumerate(lb):
         bad = []
         lim = model.max_dist_init if j == 0 else model.max_dist
-        if m.dist_obs > lim * (1 + 1e-12) and not jumped:
+        if m.dist_obs > lim * (1 + 1e-12):
             bad.append(f"dist_obs {m.dist_obs} > {'max_dist_init' if j == 0 else 'max_dist'} {lim}")
         if m.logprob / m.length < model.min_lp - 1e-12:
             bad.append(f"normalised log-probability {m.logprob / m.length} < log(min_prob_norm) {model.min_lp}")
@@ -938,6 +943,12 @@ def case_C17(seed):
                 if not (r2 is None or r2 == 'skipped' or (isinstance(r2, tuple) and len(r2) == 2 and isinstance(r2[0], list) and isinstance(r2[1], int))):
                     viol.append(('C17:result-is-not-a-(list,index)-pair', f"after {done2}: returned {r2!r}", {'case': U.case_repr(case), 'ops': done2}))
                     break
+            if not viol:
+                # ... and when the matcher is then given ANOTHER, longer trace in a plain call
+                done2.append(('match-another-longer-trace',))
+                r3 = mt2.match(list(case['trace']) + list(reversed(case['trace'])))
+                if not (isinstance(r3, tuple) and len(r3) == 2 and isinstance(r3[0], list) and isinstance(r3[1], int)):
+                    viol.append(('C17:result-is-not-a-(list,index)-pair', f"after {done2}: returned {r3!r}", {'case': U.case_repr(case), 'ops': done2}))
     except Exception as e:
         import traceback
         viol.append((f'C17:match-raised-{type(e).__name__}', f"match raised {e!r}", {'case': U.case_repr(case), 'error': repr(e),
